@@ -68,3 +68,9 @@ def _ini_surrogate(info, sig):
     but only the file object can tell that it cannot be encoded."""
     return (info.get("kind") == "payload" and info["case"].get("fmt") in ("treeinfo", "discinfo")
             and "lone surrogate" in info["case"]["payload"] and "the dump was rejected" in info["why"])
+
+
+@signature("treeinfo_fanout_document")
+def _ti_fanout(info, sig):
+    """C19 F-19c / F-19d: the two document families whose reading fans out (sig["family"])."""
+    return info.get("kind") == "fanout" and info["case"].get("family") == sig.get("family")
